@@ -23,7 +23,7 @@ CHECKS = {
    note=THRNOTE, technique="deterministic simulation: controlled scheduler over real threads, sequence oracle + deadlock detector"),
  "C12": dict(engine="netsim/dgram", section="3 (C12)",
    text="Seeded simulation of 1-3 sending tunnel gateways and one receiver over a datagram network with per-packet loss, duplication, reordering (indexed systematically for <= 6 packets in flight, sampled beyond), would-blocks and sender restarts, MTU 17..9000, both tunnel types, zlib levels 0-9, with and without a slave gateway; every delivered Message must be byte-identical to a sent one of that source (a splice analysis names the two Messages otherwise), and fault-free runs must deliver exactly the sent sequences. Exploration.",
-   note="Trusts: the simulated datagram network; message-id wrap-around is not reachable (sender_restart stands in; the resulting splice is known finding F10); a zlib-compressing slave gateway (documented FIFO-only) is not used.", technique="deterministic simulation with fault injection: lossy/duplicating/reordering datagram network, membership and sequence oracles"),
+   note="Trusts: the simulated datagram network; message-id wrap-around is produced by rebasing the ids in every fragment header on the simulated wire; sender_restart remains (the resulting splice is known finding F10); 1 run in 12 carries the tunnel over PacketizedProxyDataIO on a chunked reliable byte stream instead; more than a few concurrent sources (the receiver's 256-entry LRU table) are outside the property's quantifier; a zlib-compressing slave gateway (documented FIFO-only) is not used.", technique="deterministic simulation with fault injection: lossy/duplicating/reordering datagram network, membership and sequence oracles"),
  "C18": dict(engine="thrsim", section="3 (C18)",
    text="Seeded schedules (random walk, PCT, round-robin; low-preemption schedules over-sampled) of 2-4 real threads on one real ReaderWriterMutex with timeouts firing at any legal instant; shadow-table exclusion invariant at every hook, recursion/upgrade accounting, writer preference, deadline discipline of timed/try calls, deadlock and livelock detection. Exploration.",
    note=THRNOTE, technique="deterministic simulation: controlled scheduler over real threads, shadow lock table invariant + deadlock detector"),
@@ -32,7 +32,7 @@ CHECKS = {
    note=THRNOTE, technique="deterministic simulation: controlled scheduler over real threads, handler-log oracle + deadlock detector"),
  "C20": dict(engine="netsim/pulse", section="3 (C20)",
    text="Seeded histories on trees of instrumented PulseNodes under 1-3 manager roots driven through the ReflectServer protocol under a simulated clock (attach/detach/re-parent/destroy, requested times past/now/future/never/ties, invalidation from outside and from inside callbacks, early/exact/late wake-ups, clock jumps); root time == minimum, exactly the due nodes pulsed once with their own scheduled time, re-query discipline, with the one documented deferral relaxation for branches displaced by in-callback operations. Exploration.",
-   note="Trusts: the simulated clock (+1us per read); the harness manager mirrors ReflectServer's use of CallGetPulseTimeAux/CallPulseAux; the order of simultaneously due callbacks is not checked.", technique="deterministic discrete-event simulation: simulated clock driving real PulseNode trees, shadow-model oracle"),
+   note="Trusts: the simulated clock (+1us per read); the first oracle's harness manager mirrors ReflectServer's use of CallGetPulseTimeAux/CallPulseAux, the second oracle (30% of the budget, worker property C20S) steps the real ReflectServer event loop with instrumented sessions and I/O policies; the order of simultaneously due callbacks is not checked; known finding F31 (a too-early wake-up after a later answer within one recalculation) is reported as such.", technique="deterministic discrete-event simulation: simulated clock driving real PulseNode trees, shadow-model oracle"),
  "C04": dict(engine="netsim/server", section="3 (C04)",
    text="Seeded multi-client histories against the real ReflectServer (stepped one event-loop iteration at a time under simulated select/clock/transport) with segmentation, slow-reader, stall, cut, reset and clock-jump faults; the subscriber-mark invariant is evaluated after every processed command and every client's mirror is compared with the real tree at every forced quiescent point (bounded-step liveness). Exploration over the seeds run.",
    note=SRVNOTE, technique="deterministic simulation with fault injection: real server + simulated clients, reference evaluation at linearisation points, mirror/mark oracles at quiescence"),
@@ -50,7 +50,7 @@ CHECKS = {
    note=SRVNOTE, technique="deterministic simulation: log-replay replica vs. real index at quiescence"),
  "C02": dict(engine="netsim/wire", section="3 (C02)",
    text="Seeded hostile-transport simulation into every gateway input path (binary, templating, zlib, text, raw, SLIP, WebSocket, C mini gateway, both packet tunnels): a real sender's valid stream is rewritten (boundary values in every length/count/type word, flips, truncations incl. inside a consistently framed body, garbage, splices) and fed to a real receiver under a seeded chunk schedule, in an ASan+UBSan build with exact-size frame copies; oracle = no sanitizer report, no hang/no-progress loop, delivered Messages well-formed, receiver reusable after Reset(), allocation <= 256N+1MiB per N-byte frame. Exploration over the seeds run; scoped to parsers reachable through a transport.",
-   note="Trusts: ASan/UBSan as the memory-safety oracle (alignment checks off); uninitialised reads are not visible to them; direct calls of Unflatten on caller-supplied buffers and the MicroMessage codec are out of scope; not coverage-guided.",
+   note="Trusts: ASan/UBSan as the memory-safety oracle (alignment checks off); uninitialised reads are not visible to them; the MicroMessage reader is sampled in 1 run in 300 only (its lack of bounds checks is known finding F27); direct calls of Message::Unflatten on caller-supplied buffers are out of scope (the C parsers are additionally called on exactly-sized copies of every well-framed body); not coverage-guided.",
    technique="deterministic simulation with fault injection: seeded structure-aware corruption/truncation/splicing of real gateway streams, fed under seeded segmentation to real receivers under ASan/UBSan with watchdog, reuse and allocation-bound oracles"),
  "C03": dict(engine="netsim/wire", section="3 (C03)",
    text="Seeded search over gateway pairs on a simulated byte stream: every gateway type (binary in 10 encodings with mid-stream encoding changes, templating, text, raw, SLIP, WebSocket pair, C mini<->C++), chunk schedules from whole-buffer down to 1 byte with would-blocks and framing/buffer-boundary sizes, arbitrary interleavings of enqueue/DoOutput(max)/DoInput(max); prefix oracle after every call, equality and bounded-step liveness after the drain. Exploration: a clean batch is evidence over the seeds run, not a proof.",
